@@ -66,3 +66,18 @@ From Helios Require Import Model.Conc Proofs.ConcProofs.
 Theorem C04_expiry_never_overrides_a_fresh_ejection : forall kinds sched, s1_ok (fst (s1_run kinds sched)) = true.
 Proof. exact s1_all_schedules. Qed.
 Print Assumptions C04_expiry_never_overrides_a_fresh_ejection.
+
+From Helios Require Import Gen.HealthGen Proofs.HealthRefine.
+
+(* The gate IS the source: IsBackendHealthy / MarkBackendUnhealthy of loadbalancer.go as go2coq regenerates them on every run
+   (Gen/HealthGen.v) answer and update what the model's is_healthy / mark_unhealthy answer and update. *)
+Theorem C04_gate_is_source :
+  forall s b, lb_IsBackendHealthy mkLoadBalancer (abs_be b) (now s)
+              = (abs_be (if negb (bflag b) && (buntil b <? now s) then set_flag true b else b), fst (is_healthy s b)).
+Proof. exact is_healthy_refines. Qed.
+Print Assumptions C04_gate_is_source.
+
+Theorem C04_ejection_is_source :
+  forall b now d, fst (lb_MarkBackendUnhealthy mkLoadBalancer (abs_be b) now d) = abs_be (set_until (now + d) (set_flag false b)).
+Proof. exact mark_refines. Qed.
+Print Assumptions C04_ejection_is_source.
